@@ -1311,6 +1311,67 @@ func c15r31(c *Ctx, r *Report) {
 	r.floor("prints of the ghost text in printPrompt", n, 1)
 }
 
+// c20r20: the watcher of a preview command posts reqPreviewDelayed when the command has shown nothing for 500 ms,
+// and the render loop then paints "Loading ..". The final result of the same command can be posted just before
+// (the watcher is told to stop only after cmd.Wait); for a command without output nothing repaints the pane
+// afterwards. The render loop therefore remembers that the result on display is final and ignores a late
+// "delayed" notice for it (D112: previewer.final existed but was never written or read: `--preview 'sleep 0.497'`
+// left "Loading .." on the pane for good in 5 of 80 tries).
+func c20r20(c *Ctx, r *Report) {
+	l := c.L
+	r.rule("C20-R20", "A (a late `delayed` notice does not replace a final result)", "P1",
+		"in the render loop of Terminal.Loop, previewer.final is stored from the spinner of the result being displayed, and the call of printPreviewDelayed is control dependent on a read of previewer.final",
+		"the preview pane says \"Loading ..\" although the command has ended and its (empty) output was already displayed")
+	loop := l.Fn("fzf", "(*Terminal).Loop")
+	ppd := l.Fn("fzf", "(*Terminal).printPreviewDelayed")
+	fFinal := l.Field("fzf", "previewer", "final")
+	fSpin := l.Field("fzf", "previewResult", "spinner")
+	if loop == nil || ppd == nil || fFinal == nil || fSpin == nil {
+		r.unest("anchors", token.NoPos, nil, "anchors Terminal.Loop / printPreviewDelayed / previewer.final / previewResult.spinner", "cannot resolve")
+		return
+	}
+	cc := cdCache{}
+	stores, calls := 0, 0
+	for _, fn := range withClosures(loop) {
+		eachInstr(fn, func(in ssa.Instruction) {
+			if st, ok := in.(*ssa.Store); ok {
+				if f, _ := fieldOf(st.Addr); f == fFinal {
+					fromSpinner := false
+					for v := range backwardSlice(st.Val, func(*ssa.CallCommon) bool { return true }, nil) {
+						if f2, _ := loadedField(v); f2 == fSpin {
+							fromSpinner = true
+						}
+						if fl, ok := v.(*ssa.Field); ok {
+							if f3, _ := fieldOf(fl); f3 == fSpin {
+								fromSpinner = true
+							}
+						}
+					}
+					if fromSpinner {
+						stores++
+					}
+				}
+			}
+			if staticCallee(in) == ppd {
+				calls++
+				guarded := false
+				for cond := range cc.of(in) {
+					for v := range backwardSlice(cond, nil, nil) {
+						if f, _ := loadedField(v); f == fFinal {
+							guarded = true
+						}
+					}
+				}
+				r.check(guarded, fmt.Sprintf("%s:printPreviewDelayed call #%d looks at previewer.final", relName(loop), calls), in.Pos(), fn,
+					"under a test of previewer.final", "\"Loading ..\" is painted for every delayed notice, also one that arrives after the final result of the same command")
+			}
+		})
+	}
+	r.check(stores >= 1, relName(loop)+":previewer.final follows the displayed result", loop.Pos(), loop,
+		"stored from previewResult.spinner", "previewer.final is never set from the result that is displayed")
+	r.floor("calls of printPreviewDelayed in the render loop", calls, 1)
+}
+
 func round11(c *Ctx, r *Report, prop string) {
 	switch prop {
 	case "C01":
@@ -1363,6 +1424,7 @@ func round11(c *Ctx, r *Report, prop string) {
 		c19r19(c, r)
 	case "C20":
 		c20r19(c, r)
+		c20r20(c, r)
 	}
 }
 
